@@ -6,6 +6,7 @@
 package c07
 
 import (
+	"encoding/json"
 	"fmt"
 	"math/big"
 	"math/rand"
@@ -113,6 +114,13 @@ func catalogue(sc *issuer.Scenario, rng *rand.Rand) []issuer.Mut {
 		{"status-nonce-is-string", "reject", func(p *issuer.ProofJ, e *issuer.Env) {
 			p.IssuerData.CredentialStatus = map[string]any{"id": "x", "type": issuer.StatusType, "revocationNonce": fmt.Sprint(sc.P.AuthNonce)}
 		}},
+		{"status-nonce-beyond-uint64", "reject", func(p *issuer.ProofJ, e *issuer.Env) {
+			p.IssuerData.CredentialStatus = map[string]any{"id": "x", "type": issuer.StatusType, "revocationNonce": json.Number("18446744073709551621")}
+		}},
+		{"status-nonce-plus-2^64", "reject", func(p *issuer.ProofJ, e *issuer.Env) {
+			z := new(big.Int).Add(new(big.Int).SetUint64(sc.P.AuthNonce), new(big.Int).Lsh(big.NewInt(1), 64))
+			p.IssuerData.CredentialStatus = map[string]any{"id": "x", "type": issuer.StatusType, "revocationNonce": json.Number(z.String())}
+		}},
 		{"status-type-unregistered", "reject", func(p *issuer.ProofJ, e *issuer.Env) {
 			p.IssuerData.CredentialStatus = map[string]any{"id": "x", "type": "Iden3ReverseSparseMerkleTreeProof", "revocationNonce": sc.P.AuthNonce}
 		}},
@@ -212,7 +220,7 @@ func Run(cfg *common.Config) (*common.Report, error) {
 	}
 	// one honest bundle whose auth nonce does not survive a float64 round trip
 	{
-		p := issuer.Params{NClaims: 2, Published: issuer.BP(true), AuthNonce: 1<<53 + 1 + 2*uint64(cfg.Rng.Intn(1000)), RootPos: "index"}
+		p := issuer.Params{NClaims: 2, Published: issuer.BP(true), AuthNonce: 1<<53 + 1, RootPos: "index"}
 		sc, err := issuer.Build(cfg.Rng, p)
 		if err != nil {
 			return nil, err
